@@ -549,7 +549,7 @@ func (r *htRun) one(n int, o htOpts, seqs int, big bool) {
 	srv, err := env.StartServer(func(c *v1.ServerConfig) {
 		c.BindPort, httpPort, httpsPort = tnPort(), tnPort(), tnPort()
 		c.VhostHTTPPort, c.VhostHTTPSPort = httpPort, httpsPort
-		c.VhostHTTPTimeout = 2
+		c.VhostHTTPTimeout = 8 // generous, so that a loaded machine does not turn healthy requests into 504
 		c.Transport.TCPMux = lo.ToPtr(o.Mux)
 	})
 	if err != nil {
@@ -701,7 +701,7 @@ func (r *htRun) one(n int, o htOpts, seqs int, big bool) {
 		q := r.mkReq(px, false)
 		q.method, q.body, q.chunked = "GET", nil, false
 		if fate == "noheaders" {
-			q.plan.delay = 6 * time.Second
+			q.plan.delay = 13 * time.Second
 		}
 		r.sink.Emit("drv", "ht.conn", "conn", conn, "pipelined", false)
 		r.logReq(conn, 1, q, "127.0.0.1")
@@ -709,7 +709,7 @@ func (r *htRun) one(n int, o htOpts, seqs int, big bool) {
 		done := make(chan struct{})
 		go func() {
 			defer close(done)
-			_ = c.SetDeadline(time.Now().Add(15 * time.Second))
+			_ = c.SetDeadline(time.Now().Add(30 * time.Second))
 			_, _ = c.Write(q.wire())
 			keep := r.readResp(conn, 1, bufio.NewReader(c), q, t0)
 			if keep {
